@@ -6,9 +6,9 @@ CONSTANTS MaxWraps = 5
           FixedCode = TRUE
           Modes = {"bind", "heap", "memo", "chain", "exc", "args", "deco"}
           MaxExcChain = 2
-          MaxBindings = 2
+          MaxBindings = 1
           MaxArgSteps = 0
-          MaxDecoObjs = 4
+          MaxDecoObjs = 3
           MaxDecoCalls = 0
           TwoDecos = TRUE
 INIT Init
